@@ -604,7 +604,7 @@ pub fn run(args: &Args) -> i32 {
         let mut n = 0u64;
         while n < per_shard && !shard.time_up() {
             n += 1;
-            let pick = if n <= 3 && _i == 0 { 19 } else { rng.below(20) };
+            let pick = if n <= 3 && _i == 0 && !small { 19 } else { rng.below(20) };
             match pick {
                 0..=11 => {
                     // (i) mutation
@@ -699,7 +699,7 @@ pub fn run(args: &Args) -> i32 {
                 _ => {
                     // (ii) boundary module
                     // make sure the expensive function-count rule is seen on all three sides
-                    let forced = if n <= 3 && _i == 0 { Some((17, n as i64 - 2)) } else { None };
+                    let forced = if n <= 3 && _i == 0 && !small { Some((17, n as i64 - 2)) } else { None };
                     let (m, rule, expect) = boundary_case(rng, forced);
                     let wat_text = m.render();
                     let code = match wat::parse_str(&wat_text) {
